@@ -97,7 +97,7 @@ func verifH_C07_candidate_server() {
 		verifAssert(len(cand.sent) == 1 && cand.sent[0].Type == parser.PacketTypePong && string(cand.sent[0].Data) == "probe", "the probe ping is answered with pong 'probe' on the candidate")
 		// a burst is still queued on the old transport, and writing it to the new one takes ANY amount of time (a slow
 		// reader): the upgrade was in time, so the upgrade timer must not touch the new transport whatever the flush takes
-		old.queued = []*parser.Packet{verifNumbered('7')}
+		old.queued = []*parser.Packet{{Type: parser.PacketTypeNoop}, verifNumbered('7'), {Type: parser.PacketTypePing}}
 		slow := time.Duration(verifAnyInt64())
 		verifAssume(slow >= 0 && slow <= 3*srv.upgradeTimeout)
 		cand.onSend = func() {
@@ -114,6 +114,17 @@ func verifH_C07_candidate_server() {
 		}
 		verifAssert(cand.closed == 0 && closedSock == 0, "an upgrade completed in time is not undone by the upgrade timer, however long the backlog takes to flush")
 		verifAssert(verifCountNumbered(cand.sent, '7') == 1, "the backlog of the old transport is delivered on the new one")
+		pings, noops := 0, 0
+		for _, p := range cand.sent {
+			if p.Type == parser.PacketTypePing {
+				pings++
+			}
+			if p.Type == parser.PacketTypeNoop {
+				noops++
+			}
+		}
+		verifAssert(pings == 1, "a heartbeat ping that was waiting in the polling queue is carried over too (dropping it would close the upgraded connection one ping timeout later)")
+		verifAssert(noops == 0, "the NOOP that only served to end the poll cycle is not")
 	case 1: // a packet that is not part of the probe exchange
 		tb := verifAnyByte()
 		verifAssume(tb <= 6 && tb != byte(parser.PacketTypePing) && tb != byte(parser.PacketTypeUpgrade))
